@@ -296,6 +296,17 @@ theorem set_outside_lock_unfollowable : Frappy.MultiEvent.firstStuck {} 0
      ("t", .fire "a"), ("t", .lock), ("t", .unlock), ("t", .evset)] = some 6 := by
   decide
 
+/-- the acyclicity test of the monitors (Kahn stripping) is exactly "has a topological numbering" of the edges inside
+the node list — sound (the stripping rounds are such a numbering, bounded by the number of nodes) and complete -/
+theorem acyclicB_iff (nodes : List Name) (edges : List (Name × Name)) :
+    acyclicB nodes edges = true ↔
+      ∃ rank : Name → Nat, ∀ e ∈ edges, e.1 ∈ nodes → e.2 ∈ nodes → rank e.2 < rank e.1 := by
+  constructor
+  · intro h
+    obtain ⟨rank, hr, _⟩ := acyclicB_sound nodes edges h
+    exact ⟨rank, hr⟩
+  · exact acyclicB_complete nodes edges
+
 /-- constants of the source the harness and the generators rely on (start-up timeout of `_processCfg`, default
 export flags): re-extracted on every run, an edit breaks this proof -/
 theorem table_facts : Frappy.Generated.C15.startTimeout = 30 ∧ Frappy.Generated.C15.pinataExported = false ∧
